@@ -124,6 +124,48 @@ func ruleExponentSum(w *World, r *RuleResult) {
 			r.ok(key, w.instrPos(rt), "not decided by a comparison of one element of the term list with ±MaxExponent", true)
 		}
 	}
+	// A': the parser's own limit tests are on the sum as well: no hard-error return of the parser is decided
+	// by comparing the parsed exponent part alone with the limits
+	for _, pf := range w.parserFuncs() {
+		for _, b := range pf.Blocks {
+			rt, isRet := b.Instrs[len(b.Instrs)-1].(*ssa.Return)
+			if !isRet || !w.isErrorReturn(rt) {
+				continue
+			}
+			for _, g := range guardsAt(b) {
+				bo, isB := g.Cond.(*ssa.BinOp)
+				if !isB {
+					continue
+				}
+				for oi, o := range []ssa.Value{bo.X, bo.Y} {
+					k, isK := o.(*ssa.Const)
+					if !isK || (ci(k) != maxE && ci(k) != -maxE) {
+						continue
+					}
+					other := bo.Y
+					if oi == 1 {
+						other = bo.X
+					}
+					for {
+						if cv, isC := other.(*ssa.Convert); isC {
+							other = cv.X
+							continue
+						}
+						break
+					}
+					ex, isEx := other.(*ssa.Extract)
+					if !isEx {
+						continue
+					}
+					if pc, isCall := ex.Tuple.(*ssa.Call); isCall && strings.HasPrefix(w.calleeName(pc), "strconv.Parse") {
+						n++
+						key := fmt.Sprintf("%s | limit test on the exponent part alone", w.shortName(pf))
+						r.bad(key, w.instrPos(rt), "the parser rejects a string because its exponent part alone fails "+w.exprOf(pf, g.Cond).String()+": the fraction length is a summand too, so \"0.1e100001\" (= 1E+100000) and the scientific form of a long coefficient are refused")
+					}
+				}
+			}
+		}
+	}
 	// B: the stored exponent is range-checked on both sides
 	for _, st := range storesIn(f) {
 		if !w.recvFieldStore(f, st, "Exponent") {
@@ -235,7 +277,71 @@ func ruleExponentSum(w *World, r *RuleResult) {
 				}
 			}
 		}
+		// lower side, second form: a value below the limit is rounded as a subnormal of the context (and then
+		// stored at Etiny or above), and only a value that is normal in the context is refused when its
+		// exponent is below the limit — a System-underflow return under `sum < MinExponent`. The parser, which
+		// must refuse such strings whatever the context, then has to make that test itself.
+		lowerNormal := false
+		if !lower {
+			for _, b := range f.Blocks {
+				rt, isRet := b.Instrs[len(b.Instrs)-1].(*ssa.Return)
+				if !isRet {
+					continue
+				}
+				sysU := false
+				for _, v := range rt.Results {
+					if bits, isK := condBits(v); isK && bits&cc["SystemUnderflow"] != 0 {
+						sysU = true
+					}
+				}
+				if !sysU {
+					continue
+				}
+				saved := lower
+				lower = false
+				for _, g := range guardsAt(b) {
+					// reuse bound() with inverted sense: the return is reached with sum < MinExponent true
+					if bo, isB := g.Cond.(*ssa.BinOp); isB {
+						for oi, o := range []ssa.Value{bo.X, bo.Y} {
+							if k, isK := o.(*ssa.Const); isK && ci(k) == -maxE {
+								other, op := bo.Y, bo.Op
+								if oi == 1 {
+									other = bo.X
+								} else {
+									op = map[token.Token]token.Token{token.LSS: token.GTR, token.GTR: token.LSS, token.LEQ: token.GEQ, token.GEQ: token.LEQ}[op]
+								}
+								if src[other] && ((op == token.LSS && g.Val) || (op == token.GEQ && !g.Val)) {
+									lowerNormal = true
+								}
+							}
+						}
+					}
+				}
+				lower = saved
+			}
+		}
+		parserChecks := false
+		for _, pf := range w.parserFuncs() {
+			for _, b := range pf.Blocks {
+				rt, isRet := b.Instrs[len(b.Instrs)-1].(*ssa.Return)
+				if !isRet || !w.isErrorReturn(rt) {
+					continue
+				}
+				for _, g := range guardsAt(b) {
+					w.exprOf(pf, g.Cond).walk(func(e *Expr) bool {
+						if e.Op == "const" && e.Name == fmt.Sprint(-maxE) {
+							parserChecks = true
+						}
+						return true
+					})
+				}
+			}
+		}
 		switch {
+		case upper && !lower && lowerNormal && parserChecks:
+			r.ok(key, w.instrPos(st), "the stored exponent is ≤ MaxExponent; below MinExponent only a subnormal of the context is stored (rounded at Etiny), a normal value with such an exponent is refused, and the parser tests the lower limit itself", true)
+		case upper && !lower && lowerNormal && !parserChecks:
+			r.bad(key, w.instrPos(st), "setExponent rounds a value below the lower package limit as a subnormal of the context instead of refusing it, but the parser does not test the lower limit itself: \"1e-200000\" would be accepted as a (flushed) zero instead of being rejected")
 		case upper && lower:
 			r.ok(key, w.instrPos(st), "the value the stored exponent derives from is ≤ MaxExponent and ≥ MinExponent at the store (the clamps to Etiny and c.MaxExponent only move it inwards)", true)
 		case !upper && !lower:
@@ -431,7 +537,14 @@ func ruleParserTrapsOnce(w *World, r *RuleResult) {
 				continue
 			}
 			nGo++
-			if !w.underSystemTest(c.Block(), 0) {
+			// a literal Condition carrying a System* flag is the hard error by construction
+			hard := false
+			for _, a := range c.Common().Args {
+				if bits, isK := condBits(a); isK && typeIs(a.Type(), apdPath, "Condition") && bits&3 != 0 {
+					hard = true
+				}
+			}
+			if !hard && !w.underSystemTest(c.Block(), 0) {
 				bad = append(bad, fmt.Sprintf("%s at %s", n, w.instrPos(c)))
 			}
 		}
